@@ -8,6 +8,7 @@ from hypothesis import strategies as st
 from ..runner import CaseResult
 from .. import netcase as N
 from ..gen import formats as F
+from ..gen import lines as L
 
 PROPERTY = "C14"
 LEVEL = "exploration"
@@ -90,8 +91,50 @@ def _history(draw, maxlen=25):
     return {"kind": "api", "names": names, "alphabet": alpha, "ops": ops, "init_allowed": init_allowed}
 
 
+@st.composite
+def _refilter_case(draw):
+    """A network file of any format read with an allowed list, the list changed afterwards (once or twice) - against the
+    same file read with the final list (the property's last sentence, for reactions that entered as file lines)."""
+    f = draw(L.reaction_file(nmax=8).filter(lambda c: not c.get("elements")))
+    names = sorted({n for lr in f["expected"] for n in lr["r"] + lr["p"]})
+    sub = st.lists(st.sampled_from(names), min_size=1, max_size=len(names), unique=True)
+    lists = [draw(sub)] + [draw(st.one_of(sub, st.just(list(names)), st.just([]))) for _ in range(draw(st.integers(1, 2)))]
+    return {"kind": "refilter", "file": f, "lists": lists}
+
+
+def run_refilter(case, failures):
+    from naunet.network import Network
+
+    f = case["file"]
+    fd, path = tempfile.mkstemp(prefix="vt-", suffix="." + f["fmt"])
+    with os.fdopen(fd, "w") as fh:
+        fh.write("\n".join(f["lines"]) + "\n")
+    try:
+        lists = case["lists"]
+        try:
+            want_net = Network(filelist=path, fileformats=f["fmt"], allowed_species=list(lists[-1]) or None)
+            net = Network(filelist=path, fileformats=f["fmt"], allowed_species=list(lists[0]))
+        except Exception:
+            return None  # the file/list is refused by the constructor itself: outside this clause
+        N_first = len(net.reaction_list)
+        try:
+            for l in lists[1:]:
+                net.allowed_species = list(l)
+        except Exception as e:
+            failures.append((f"refilter/{f['fmt']}/raises/{type(e).__name__}", f"allowed_species = {l} after reading the file with {lists[0]}: {type(e).__name__}: {e}"))
+            return N_first
+        got, want = sorted(view(net)), sorted(view(want_net))
+        if got != want:
+            failures.append((f"refilter/{f['fmt']}/reactions", f"file read with {lists[0]}, then allowed_species set to {lists[1:]}: {len(got)} reactions {got[:4]} but reading with {lists[-1]} gives {len(want)}: {want[:4]}"))
+        elif {s.name for s in net.species} != {s.name for s in want_net.species}:
+            failures.append((f"refilter/{f['fmt']}/species", f"species {sorted(s.name for s in net.species)} vs {sorted(s.name for s in want_net.species)}"))
+        return N_first
+    finally:
+        os.unlink(path)
+
+
 def strategy(tier):
-    return st.one_of(_history(25 if tier == "quick" else 60), _history(25 if tier == "quick" else 60), _cli_case())
+    return st.one_of(_history(25 if tier == "quick" else 60), _history(25 if tier == "quick" else 60), _cli_case(), _refilter_case())
 
 
 # --------------------------------------------------------------------------------- reference model
@@ -484,5 +527,12 @@ def check_case(case, tier):
         if case["opts"].get("electron_as") == "E" and "e-" in case["opts"]["remove_species"] + case["opts"]["reduce_by_species"]:
             labels.append("electron-spelled-E-in-option")
         return CaseResult(failures, True, labels, sample={"extend": case["opts"], "n": len(case["reactions"])})
+    if case["kind"] == "refilter":
+        n_first = run_refilter(case, failures)
+        if n_first is None:
+            return CaseResult(discarded=True)
+        f = case["file"]
+        return CaseResult(failures, n_first < len(f["expected"]), ["refilter-file", f"refilter-{f['fmt']}"] + (["krome-own-layout"] if f["fmt"] == "krome" and not f.get("standard_layout") else []),
+                          sample={"fmt": f["fmt"], "lists": case["lists"], "lines": f["lines"][:3]})
     labels, nontrivial = run_api(case, failures)
     return CaseResult(failures, nontrivial, ["api-history"] + sorted(labels), sample={"ops": case["ops"][:10], "alphabet": [f"{' + '.join(r['r'])} -> {' + '.join(r['p'])}" for r in case["alphabet"]]})
